@@ -1222,3 +1222,92 @@ var ruleOpTokens = &Rule{
 }
 
 func init() { register(ruleOpTokens) }
+
+// --- R-EMPTYPROD: empty productions set their value --------------------------------------------
+
+var typeDeclRe = regexp.MustCompile(`^%type\s+<([A-Za-z_0-9]+)>\s*(.*)$`)
+
+// declaredTypes: nonterminal → union field, from the %type declarations of
+// grammar.y (continuation lines are indented).
+func (g *Grammar) declaredTypes() map[string]string {
+	out := map[string]string{}
+	cur := ""
+	for _, ln := range strings.Split(g.YSrc, "\n") {
+		if strings.HasPrefix(ln, "%%") {
+			break
+		}
+		if m := typeDeclRe.FindStringSubmatch(ln); m != nil {
+			cur = m[1]
+			for _, n := range strings.Fields(m[2]) {
+				out[n] = cur
+			}
+			continue
+		}
+		if cur != "" && (strings.HasPrefix(ln, "\t") || strings.HasPrefix(ln, " ")) && strings.TrimSpace(ln) != "" && !strings.HasPrefix(strings.TrimSpace(ln), "%") {
+			for _, n := range strings.Fields(ln) {
+				out[n] = cur
+			}
+			continue
+		}
+		cur = ""
+	}
+	return out
+}
+
+var ruleEmptyProd = &Rule{
+	Name: "R-EMPTYPROD", NeedSSA: false,
+	Doc: "every empty production of a nonterminal that carries a value (%type) assigns $$ in its action: goyacc does not clear $$ (before a reduction it copies whatever last occupied that slot of the value stack), so an optional argument written without an explicit `$$ = nil` inherits the value of an unrelated earlier sub-expression",
+	Run: func(p *Prog) *RuleOut {
+		out := newOut("R-EMPTYPROD")
+		g, err := p.grammar()
+		if err != nil {
+			out.undecided("goyacc", "-", "", err.Error())
+			return out
+		}
+		types_ := g.declaredTypes()
+		out.Counts["typed_nonterminals"] = len(types_)
+		out.Floors["typed_nonterminals"] = 20
+		n := 0
+		for _, rn := range g.RuleOrder {
+			r := g.Rules[rn]
+			if len(r.RHS) != 0 {
+				continue
+			}
+			field := types_[r.LHS]
+			if field == "" {
+				continue
+			}
+			n++
+			key := fmt.Sprintf("empty production of %s (rule %d)", r.LHS, rn)
+			assigned := false
+			if cc := g.Actions[rn]; cc != nil {
+				for _, st := range cc.Body {
+					ast.Inspect(st, func(nd ast.Node) bool {
+						as, ok := nd.(*ast.AssignStmt)
+						if !ok {
+							return true
+						}
+						for _, l := range as.Lhs {
+							if se, ok := l.(*ast.SelectorExpr); ok && se.Sel.Name == field {
+								if id, ok := se.X.(*ast.Ident); ok && id.Name == "pathVAL" {
+									assigned = true
+								}
+							}
+						}
+						return true
+					})
+				}
+			}
+			if assigned {
+				out.ok(key, "path/parser/grammar.y", "", "the action assigns $$ (pathVAL."+field+")")
+			} else {
+				out.viol(key, "path/parser/grammar.y", "", "the action does not assign $$ (pathVAL."+field+"): the value is whatever an earlier, unrelated symbol left in that slot of the parser's value stack")
+			}
+		}
+		out.Counts["empty_typed_productions"] = n
+		out.Floors["empty_typed_productions"] = 3
+		return out
+	},
+}
+
+func init() { register(ruleEmptyProd) }
